@@ -75,6 +75,8 @@ pub struct Obs {
     pub pair: BTreeMap<(usize, usize), String>,
     /// per test case (against rules[0]): "0" | "7" | "E"
     pub case: Vec<String>,
+    /// the same against rules[1] (for the --dir layout), empty if there is no second rules file
+    pub case1: Vec<String>,
 }
 
 impl C06 {
@@ -126,14 +128,21 @@ impl C06 {
                 }
             }
         }
-        for c in &scn.cases {
-            w.write_file(&FileSpec { rel: "obs/one_tests.json".into(), bytes: tests_text(std::slice::from_ref(c)), mtime_ns: 0 });
-            let (cl, _o, _e) = self.run1(w, &sv(&["cfn-guard", "test", "-r", &format!("@/{}", scn.rules[0]), "-t", "@/obs/one_tests.json", "-o", "json"]), &None, rep);
-            obs.case.push(match cl.as_str() {
-                "exit:0" => "0".into(),
-                "exit:7" => "7".into(),
-                _ => "E".into(),
-            });
+        for ri in 0..scn.rules.len().min(2) {
+            for c in &scn.cases {
+                w.write_file(&FileSpec { rel: "obs/one_tests.json".into(), bytes: tests_text(std::slice::from_ref(c)), mtime_ns: 0 });
+                let (cl, _o, _e) = self.run1(w, &sv(&["cfn-guard", "test", "-r", &format!("@/{}", scn.rules[ri]), "-t", "@/obs/one_tests.json", "-o", "json"]), &None, rep);
+                let v: String = match cl.as_str() {
+                    "exit:0" => "0".into(),
+                    "exit:7" => "7".into(),
+                    _ => "E".into(),
+                };
+                if ri == 0 {
+                    obs.case.push(v);
+                } else {
+                    obs.case1.push(v);
+                }
+            }
         }
         obs
     }
@@ -322,6 +331,17 @@ impl C06 {
                 files.push(FileSpec { rel: rel.replace("tests/", "dl/tests/r0_"), ..t });
             }
         }
+        // a second rules file with its own copies of the test files (same cases)
+        if rules.len() > 1 {
+            if let Some(r1) = files.iter().find(|f| f.rel == rules[1]).cloned() {
+                files.push(FileSpec { rel: "dl/r1.guard".into(), ..r1 });
+            }
+            for (rel, _) in &test_files {
+                if let Some(t) = files.iter().find(|f| &f.rel == rel).cloned() {
+                    files.push(FileSpec { rel: rel.replace("tests/", "dl/tests/r1_"), ..t });
+                }
+            }
+        }
         (wl.clone(), Scn6 { files, rules, data, cases, test_files })
     }
 
@@ -431,7 +451,7 @@ impl C06 {
                 if r.chance(1, 2) {
                     argv.push((*r.pick(&["-a", "-m"])).to_string());
                 }
-                out.push(Dlv { kind: format!("testdir-{fmt}"), argv, stdin: None, dir_mode: (*r.pick(&["shuffle", "desc", "asc"])).to_string(), dir_seed: r.next(), faults: FaultSpec::Off, extra: vec![], missing: vec![], rules_idx: vec![0], data_idx: (0..scn.test_files.len()).collect() });
+                out.push(Dlv { kind: format!("testdir-{fmt}"), argv, stdin: None, dir_mode: (*r.pick(&["shuffle", "desc", "asc"])).to_string(), dir_seed: r.next(), faults: FaultSpec::Off, extra: vec![], missing: vec![], rules_idx: (0..scn.rules.len().min(2)).collect(), data_idx: (0..scn.test_files.len()).collect() });
                 continue;
             }
             let which = r.below(3);
@@ -471,36 +491,52 @@ impl C06 {
 
     /// (allowed, description) for a test delivery
     fn model_test(&self, obs: &Obs, scn: &Scn6, d: &Dlv, hard: &[String]) -> (Vec<&'static str>, String) {
-        let rules_class = if hard.iter().any(|h| h == &scn.rules[0]) { "U".to_string() } else { obs.rules[0].clone() };
+        let mut classes: Vec<String> = Vec::new();
         let mut broken_file = false;
         let mut mismatch = false;
         let mut case_err = false;
-        for fi in &d.data_idx {
-            let (rel, cases) = &scn.test_files[*fi];
-            if hard.iter().any(|h| h == rel) {
-                broken_file = true;
+        for ri in &d.rules_idx {
+            let rules_class = if hard.iter().any(|h| h == &scn.rules[*ri]) { "U".to_string() } else { obs.rules[*ri].clone() };
+            classes.push(rules_class.clone());
+            if rules_class != "P" {
+                // nothing of this rules file is tested (E: nothing to test; B/U: error)
                 continue;
             }
-            match cases {
-                None => broken_file = true,
-                Some(cs) => {
-                    for c in cs {
-                        match obs.case[*c].as_str() {
-                            "7" => mismatch = true,
-                            "E" => case_err = true,
-                            _ => {}
+            let outcomes = if *ri == 0 { &obs.case } else { &obs.case1 };
+            for fi in &d.data_idx {
+                let (rel, cases) = &scn.test_files[*fi];
+                if hard.iter().any(|h| h == rel) {
+                    broken_file = true;
+                    continue;
+                }
+                match cases {
+                    None => broken_file = true,
+                    Some(cs) => {
+                        for c in cs {
+                            match outcomes.get(*c).map(|s| s.as_str()) {
+                                Some("7") => mismatch = true,
+                                Some("E") => case_err = true,
+                                _ => {}
+                            }
                         }
                     }
                 }
             }
         }
-        let desc = format!("rules[{}]{}{}{}", rules_class, if broken_file { " broken-test-file" } else { "" }, if mismatch { " mismatch" } else { "" }, if case_err { " case-error" } else { "" });
-        if rules_class == "E" {
-            // no rules: the command returns before looking at any test file
+        let desc = format!("rules[{}]{}{}{}", classes.join(""), if broken_file { " broken-test-file" } else { "" }, if mismatch { " mismatch" } else { "" }, if case_err { " case-error" } else { "" });
+        if classes.iter().all(|c| c == "E") {
+            // no rules at all: the command returns before looking at any test file
             return (vec!["exit:0", "exit:1", "exit:7", "err:255"], desc);
         }
-        if rules_class != "P" || broken_file || case_err {
+        if classes.iter().any(|c| c == "B" || c == "U") || case_err {
             return (vec!["exit:1", "exit:7", "err:255", "exit:5"], desc);
+        }
+        if broken_file {
+            // a broken test file only matters for rules files that are actually tested
+            if classes.iter().any(|c| c == "P") {
+                return (vec!["exit:1", "exit:7", "err:255", "exit:5"], desc);
+            }
+            return (vec!["exit:0", "exit:1", "exit:7", "err:255"], desc);
         }
         (vec![if mismatch { "exit:7" } else { "exit:0" }], desc)
     }
